@@ -52,9 +52,15 @@ class C02(CheckBase):
         def after_commit_checks(v, tr, empty):
             if empty:
                 return
-            r = canon.referential_integrity(mdib)
+            r = canon.referential_integrity_ex(mdib)
             if r:
-                hist.problems.append(('refint', r[0].split(':')[0].split(' ')[0], f'at MdibVersion {v}: {r[:4]}'))
+                kind, h, _ = r[0]
+                deleted = {d.Handle for d in tr.descr_deleted}
+                sig = kind
+                if kind.startswith('orphan') and h in deleted:
+                    # the same transaction deleted the descriptor (sub-tree) and created / updated something inside it
+                    sig = kind + ':touched-inside-subtree-deleted-by-same-transaction'
+                hist.problems.append(('refint', sig, f'at MdibVersion {v}: {[t for _, _, t in r[:4]]}'))
 
         hist.on_commit = after_commit_checks
 
